@@ -18,13 +18,13 @@ PROPS = {
     },
 }
 
-GEN = "seeded generator over scheme configurations (max/supported degree, enforced bound lists, hiding support, num_vars), polynomial shapes (full, random, zero, constant, low-order zeros, top monomial, sparse / mixed monomials), in-domain (degree bound, hiding bound) pairs, hostile query sets (several polynomials per point label, labels sharing a point value, one polynomial at many points, label orders differing from insertion order) and list permutations; 11 schemes (Marlin, Sonic, IPA, PST13, Hyrax, univariate/multilinear Ligero, Brakedown through the trait; KZG10, multilinear PST, streaming KZG directly; thorough adds BLS12-377 instances). "
+GEN = "seeded generator over scheme configurations (max/supported degree, enforced bound lists, hiding support, num_vars), polynomial shapes (full, random, zero, constant, low-order zeros, top monomial, sparse / mixed monomials), in-domain (degree bound, hiding bound) pairs with tight (bound == degree, including bound 0 for constants), loosest and arbitrary bounds and degrees at the maximum / one below / around powers of two, univariate Ligero sizes on both sides of the 2-row / 4-row matrix boundary, hostile query sets (several polynomials per point label, labels sharing a point value, one polynomial at many points, label orders differing from insertion order) and list permutations; 11 schemes (Marlin, Sonic, IPA, PST13, Hyrax, univariate/multilinear Ligero, Brakedown through the trait; KZG10, multilinear PST, streaming KZG directly; thorough adds BLS12-377 instances). "
 DIST = " Distinct = distinct SHA-256 hashes of (scheme, class, full case descriptor); a case is non-trivial when its oracle preconditions held (skipped cases are reported separately and never counted)."
 
 PROPS.update({
     "C01": {
         "title": "Completeness",
-        "rule": GEN + "Oracle: every call of the honest pipeline (setup, trim, commit, batch_open, open) succeeds and batch_check / check (two verifier seeds) accept the true values; prover and verifier start from clones of one pre-seeded recording sponge." + DIST,
+        "rule": GEN + "Oracle: every call of the honest pipeline (setup, trim, commit, batch_open, open) succeeds and batch_check / check (two verifier seeds) accept the true values; prover and verifier start from clones of one pre-seeded recording sponge. In this check one point coordinate in eight is a special field element (0, 1, -1, 2)." + DIST,
         "required_classes": ["batch-accept", "single-accept"],
         "technique": "runtime monitoring: generated hostile honest workloads, outcome oracle at the API boundary",
         "level_text": "Exploration of the honest configuration space with an accept-oracle at the client boundary; library panics are contained per call and classified. Thousands of transcripts per scheme in the thorough tier, covering every (bound, hiding, shape, query-shape, permutation) feature counted in evidence.observed_counters.",
@@ -33,7 +33,7 @@ PROPS.update({
     },
     "C02": {
         "title": "Evaluation binding (honest proof, false claim)",
-        "rule": GEN + "For each accepting transcript: value+delta (delta in {+1,-1,-value,random}) at several positions, the point of one label replaced, one commitment replaced by an honest commitment to another polynomial; in batch_check and single check (and KZG10::check/batch_check, MultilinearPC::check, streaming verify/verify_multi_points). Oracle: outcome is reject, Err or panic; precondition: the perturbed claim is false as recomputed from the polynomials (else skipped)." + DIST,
+        "rule": GEN + "For each accepting transcript: value+delta (delta in {+1,-1,-value,random}) at several positions, the value replaced by the value claimed for the neighbouring polynomial of the same point (both directions), the point of one label replaced, one commitment replaced by an honest commitment to another polynomial; in batch_check and single check (and KZG10::check/batch_check, MultilinearPC::check, streaming verify/verify_multi_points). Oracle: outcome is reject, Err or panic; precondition: the perturbed claim is false as recomputed from the polynomials (else skipped)." + DIST,
         "required_classes": ["value-perturbed", "point-replaced", "commitment-replaced"],
         "technique": "runtime monitoring: single-fault statement perturbation of accepting transcripts, reject-oracle",
         "level_text": "Fault enumeration over statement components of generated accepting transcripts (about 10 perturbations per transcript) with a truth-recomputing precondition so that correct acceptances are never flagged.",
@@ -42,8 +42,8 @@ PROPS.update({
     },
     "C05": {
         "title": "Batch verification equals conjunction of single verifications",
-        "rule": GEN + "Query sets with >=2 point labels and >=2 polynomials. Per transcript: all-true batch under 4 verifier seeds; random subsets of falsified claims; plain cancelling error pairs (delta,-delta) within one point and across points; proof list truncated / emptied / extended / permuted. Oracles: batch decision == AND of per-point `check` decisions run in group order on a clone of the same sponge (streaming: == AND of single-point verifications with honest single proofs); decision independent of verifier seed; false and cancelling claims and missing/surplus proofs not accepted." + DIST,
-        "required_classes": ["all-true-accepted", "batch-vs-single-mismatch", "false-claim-accepted", "cancelling-errors-accepted", "proof-list-truncated", "proof-list-extended", "verifier-seed-invariance"],
+        "rule": GEN + "Query sets with >=2 point labels and >=2 polynomials. Per transcript: all-true batch under 4 verifier seeds; random subsets of falsified claims; plain cancelling error pairs (delta,-delta) within one point and across points; challenge-aware error pairs (d, -d*xi_1/xi_2) across two point labels (xi decoded from the recorded verifier sponge); all claims true with the blinding evaluation of one KZG-style proof moved onto another proof (sum unchanged); proof list truncated / emptied / extended / permuted. Oracles: batch decision == AND of per-point `check` decisions run in group order on a clone of the same sponge (streaming: == AND of single-point verifications with honest single proofs); decision independent of verifier seed; false and cancelling claims and missing/surplus proofs not accepted." + DIST,
+        "required_classes": ["all-true-accepted", "batch-vs-single-mismatch", "false-claim-accepted", "cancelling-errors-accepted", "proof-list-truncated", "proof-list-extended", "verifier-seed-invariance", "blinding-moved-between-proofs"],
         "technique": "runtime monitoring: differential oracle batch_check vs sequential check on one transcript + reject-oracle on cancelling/shape faults",
         "level_text": "Differential monitoring of two library decision procedures on identical claims, plus reject-oracles for challenge-oblivious cancelling errors and proof-list shape faults; challenge-aware compensating errors are excluded because correct code accepts them (values are not absorbed into the transcript).",
         "design_ref": "5 (C05)",
@@ -93,7 +93,7 @@ PROPS.update({
     },
     "C09": {
         "title": "Setup and trim",
-        "rule": "Per scheme, seeded (max_degree | num_vars, supported_degree, hiding, enforced-bound list incl. unsorted / duplicated / empty / None): pairing-chain identities over every published power (randomised batching with per-index fallback) for G1, gamma-G1 and inverse G2 powers, prepared == raw elements; transparent generators (IPA, Hyrax) == independent re-derivation from the protocol seed, valid, distinct, non-identity, RNG-independent; multilinear PST: level sums pin one trapdoor point, G1/G2 tables agree, each level is the pairwise sum of the previous; trimmed keys element-wise equal to the stated windows of the parameters, shift elements == (max-d)-th (inverse) powers for exactly the sorted de-duplicated bounds; degree reports truthful (commit at supported succeeds, supported+1 refused); keys from two trims of one SRS interoperate; prepared tables are successive doublings; out-of-range trim / setup requests refused." + DIST,
+        "rule": "Per scheme, seeded (max_degree | num_vars, supported_degree, hiding, enforced-bound list incl. unsorted / duplicated / empty / None): pairing-chain identities over every published power (randomised batching with per-index fallback) for G1, gamma-G1 and inverse G2 powers, prepared == raw elements; transparent generators (IPA, Hyrax) == independent re-derivation from the protocol seed, valid, distinct, non-identity, RNG-independent; multilinear PST: level sums pin one trapdoor point, G1/G2 tables agree, each level is the pairwise sum of the previous; trimmed keys element-wise equal to the stated windows of the parameters, shift elements == (max-d)-th (inverse) powers for exactly the sorted de-duplicated bounds; degree reports truthful (commit at supported succeeds, supported+1 refused); keys from two trims of one SRS interoperate; prepared tables are successive doublings and prepared commitments keep their parts for every commitment shape (with / without shifted part, identity elements as for the zero polynomial); out-of-range trim / setup requests refused." + DIST,
         "required_classes": ["srs-powers", "trim-faithful", "supported-degree-truthful", "trim-out-of-range-refused", "transparent-generators", "keys-interoperate", "prepared-tables"],
         "technique": "runtime monitoring: structural invariants of key material checked through pairing / group identities against the public parameters",
         "level_text": "Every element of every generated SRS and trimmed key is covered by an algebraic identity (pairing chains, sub-key equality, doubling tables); configurations are generated, not enumerated.",
@@ -114,8 +114,8 @@ PROPS.update({
     },
     "C12": {
         "title": "Serialization",
-        "rule": GEN + "Every artefact produced along the transcript (universal parameters, committer key, verifier key, each commitment, each commitment state, batch proof, combination proof, labelled polynomial; KZG10 powers/keys/proofs/randomness; multilinear-PST keys/commitment/proof) is serialized compressed and uncompressed: serialized_size == bytes written; deserialization with and without validation consumes all bytes and re-serializes identically; proper prefixes (all for <= 600 bytes, 48 sampled cut points otherwise) fail. Decisions of batch_check, check and check_combinations on an honest and on a tampered claim are equal for original and deserialized (vk, commitments, proofs); deserialized parameters trim to byte-identical keys that verify; deserialized committer key and states produce accepted proofs." + DIST,
-        "required_classes": ["roundtrip[universal-params]", "roundtrip[committer-key]", "roundtrip[verifier-key]", "roundtrip[commitment]", "roundtrip[commitment-state]", "roundtrip[batch-proof]", "decision-preserved[batch_check]", "decision-preserved[check]", "trim-of-deserialized-params"],
+        "rule": GEN + "Every artefact produced along the transcript (universal parameters, committer key, verifier key, each commitment, each commitment state, batch proof, combination proof, labelled polynomial; KZG10 powers/keys/proofs/randomness; multilinear-PST keys/commitment/proof) is serialized compressed and uncompressed: serialized_size == bytes written; deserialization with and without validation consumes all bytes and re-serializes identically; proper prefixes (all for <= 600 bytes, 48 sampled cut points otherwise) fail. Decisions of batch_check, check and check_combinations on an honest and on a tampered claim are equal for original and deserialized (vk, commitments, proofs); deserialized parameters trim to byte-identical keys that verify; deserialized committer key and states produce accepted proofs; combination proofs additionally with every shape of the optional evaluation list (None, empty, 1, 3 entries)." + DIST,
+        "required_classes": ["roundtrip[universal-params]", "roundtrip[committer-key]", "roundtrip[verifier-key]", "roundtrip[commitment]", "roundtrip[commitment-state]", "roundtrip[batch-proof]", "decision-preserved[batch_check]", "decision-preserved[check]", "trim-of-deserialized-params", "batch-lc-proof"],
         "technique": "runtime monitoring: round-trip laws + differential verification decisions between original and deserialized artefacts",
         "level_text": "Round-trip and size laws on every artefact of every generated transcript plus behavioural equivalence of the reloaded values in all three verification entry points (which is what exposes wrongly rebuilt prepared elements).",
         "design_ref": "5 (C12)",
@@ -135,8 +135,8 @@ PROPS.update({
 PROPS.update({
     "C03": {
         "title": "Evaluation binding against crafted and malformed proofs",
-        "rule": "Finite attack catalogue, every entry a case class with a false claimed value (recomputed truth): (generic, all 8 trait schemes) library prover run on (q, state_q) against commitment(p); honest proof for (p, z') replayed at z; honest proof for commitment(q) presented for commitment(p); empty batch proof list. (Marlin/Sonic/PST13) each proof component replaced (random / identity witness, random / dropped blinding value), PST13 witness list shorter / longer / empty. (Hyrax) inner proof list empty / truncated, z stretched / shortened, com_eval replaced by a fresh commitment to the claimed value, z_d changed. (IPA, check and batch_check) rounds missing / extra random / uneven, c and final key replaced, and the identity-padding attack: the harness's own IPA prover run on the key padded with identity elements to 2^(log d + k), k=1,2, with the extra coefficient chosen so that the inner product equals the false value. (Ligero/Brakedown, through mirror structs, with the verifier transcript simulated to derive the opened indices) opening vector altered; proof consistent with another matrix (its own paths / honest paths of the committed tree / altered sibling); opening and well-formedness vectors stretched to the codeword length by solving E'(v')[j]=E(v)[j] for all j with Gaussian elimination over the public encode; well-formedness absent; columns repeated / shifted / truncated; paths swapped. Sanity classes confirm that harness-built honest proofs are accepted." + DIST,
-        "required_classes": ["foreign-state-proof", "replayed-other-point", "foreign-commitment-proof", "rounds-extra-identity-padding", "stretched-opening-vector", "inner-proof-list-empty", "opening-vector-altered", "harness-built-honest-proof-accepted", "harness-prover-sanity"],
+        "rule": "Finite attack catalogue, every entry a case class with a false claimed value (recomputed truth): (generic, all 8 trait schemes) library prover run on (q, state_q) against commitment(p); honest proof for (p, z') replayed at z; honest proof for commitment(q) presented for commitment(p); empty batch proof list. (Marlin/Sonic/PST13) each proof component replaced (random / identity witness, random / dropped blinding value), PST13 witness list shorter / longer / empty. (Hyrax) inner proof list empty / truncated, z stretched / shortened, com_eval replaced by a fresh commitment to the claimed value, z_d changed. (IPA, check and batch_check) rounds missing / extra random / uneven, c and final key replaced, and the identity-padding attack: the harness's own IPA prover run on the key padded with identity elements to 2^(log d + k), k=1,2, with the extra coefficient chosen so that the inner product equals the false value. (Ligero/Brakedown, through mirror structs, with the verifier transcript simulated to derive the opened indices) opening vector altered; proof consistent with another matrix (its own paths / honest paths of the committed tree / altered sibling); opening and well-formedness vectors stretched to the codeword length by solving E'(v')[j]=E(v)[j] for all j with Gaussian elimination over the public encode; well-formedness absent; columns repeated / shifted / truncated; paths swapped. (Hyrax) the proofs of two different polynomials of one opening swapped. Sanity classes confirm that harness-built honest proofs are accepted." + DIST,
+        "required_classes": ["foreign-state-proof", "replayed-other-point", "foreign-commitment-proof", "rounds-extra-identity-padding", "stretched-opening-vector", "inner-proof-list-empty", "opening-vector-altered", "harness-built-honest-proof-accepted", "harness-prover-sanity", "proof-elements-swapped"],
         "technique": "runtime monitoring: adversarial workload (attack catalogue incl. harness-side provers and linear-system solving), reject-oracle",
         "level_text": "A catalogue, not a proof of soundness: held on K attacks of the listed classes. It reaches what tests cannot because the proofs are not produced by the honest prover: the harness rebuilds crate-private proof types through their serialization, runs its own IPA prover and solves for stretched Ligero vectors.",
         "design_ref": "5 (C03)",
@@ -168,8 +168,8 @@ PROPS.update({
 PROPS.update({
     "C17": {
         "title": "Out-of-domain requests are refused",
-        "rule": GEN + "Every generated in-domain pipeline must not be refused or abort (setup, trim, commit, batch_open, batch_check). Around it, out-of-domain requests with magnitudes at the boundary (supported+1, supported+2, max+1, 0): query for an unknown polynomial (batch_open, batch_check, open_combinations), missing evaluation, missing commitment, degree beyond the key, hiding beyond the key / zero (where declared unsupported) / without RNG, bound below the degree / beyond the key (commit and verifier side), zero degree / zero or missing variables at setup, wrong number of variables (Hyrax, Brakedown, multilinear PST: larger and smaller), point of the wrong length, mismatched labels (Hyrax, IPA), KZG10 direct API. Oracle: the outcome is Err or panic (for verification calls: not accept); which of the two is reported in observed_counters, not judged." + DIST,
-        "required_classes": ["in-domain-no-abort", "unknown-polynomial", "missing-evaluation", "degree-beyond-key", "hiding-beyond-key", "hiding-without-rng", "bound-beyond-key", "setup-degree-zero", "wrong-num-vars[larger]", "wrong-num-vars[smaller]", "point-length-mismatch", "mismatched-labels"],
+        "rule": GEN + "Every generated in-domain pipeline must not be refused or abort (setup, trim, commit, batch_open, batch_check). Around it, out-of-domain requests with magnitudes at the boundary (supported+1, supported+2, max+1, 0): query for an unknown polynomial (batch_open, batch_check, open_combinations), missing evaluation, missing commitment, degree beyond the key, hiding beyond the key / zero (where declared unsupported) / without RNG, bound below the degree / beyond the key (commit and verifier side), zero degree / zero or missing variables at setup, wrong number of variables (Hyrax, Brakedown, multilinear PST: larger and smaller), point of the wrong length, mismatched labels (Hyrax, IPA), IPA `open` with a polynomial whose (valid) degree bound differs from the one recorded on its commitment (other value, present on one side only), KZG10 direct API. Oracle: the outcome is Err or panic (for verification calls: not accept); which of the two is reported in observed_counters, not judged." + DIST,
+        "required_classes": ["in-domain-no-abort", "unknown-polynomial", "missing-evaluation", "degree-beyond-key", "hiding-beyond-key", "hiding-without-rng", "bound-beyond-key", "setup-degree-zero", "wrong-num-vars[larger]", "bound-differs-from-commitment", "wrong-num-vars[smaller]", "point-length-mismatch", "mismatched-labels"],
         "technique": "runtime monitoring: boundary-magnitude request injection with outcome classification (Ok / Err / panic) via catch_unwind",
         "level_text": "Each refusal boundary of each scheme is probed from both sides on generated configurations; the in-domain side reuses the honest-workload generator so that a refusal introduced for valid inputs is caught as well.",
         "design_ref": "5 (C17)",
@@ -180,8 +180,8 @@ PROPS.update({
 PROPS.update({
     "C19": {
         "title": "Succinctness",
-        "rule": "Sizes are measured on the canonical compressed serialization (and compared with serialized_size) along geometric ladders: degree 2..256 (Marlin, Sonic, streaming; IPA incl. non-powers of two), (1..5 variables) x (degree 1..3) for PST13, 1..10 variables multilinear PST, 0..10 variables Hyrax, degree 3..16383 / 2..14 variables for Ligero / Brakedown; random degree-bound and hiding settings, 1..3 polynomials, 1..3 points. Laws (exact byte counts): KZG family constant commitment and per-point proof, batch proof == 8 + points * proof, independent of the number of polynomials; PST13 / multilinear PST one group element per variable; IPA 2*log2(d+1) round elements; Hyrax 2^(n/2) row commitments and z entries per polynomial; Ligero / Brakedown commitment 64 bytes and proof <= 4 x min over power-of-two row counts of a byte-exact model of the proof (t paths, t columns, opening vectors) -- evaluated separately where t is below the codeword length and where it is capped by it." + DIST,
-        "required_classes": ["constant-size", "one-element-per-variable", "two-elements-per-round", "square-root-size", "proof-within-4x-of-best-shape[t-below-codeword-length]"],
+        "rule": "Sizes are measured on the canonical compressed serialization (and compared with serialized_size) along geometric ladders: degree 2..256 (Marlin, Sonic, streaming; IPA incl. non-powers of two), (1..5 variables) x (degree 1..3) for PST13, 1..10 variables multilinear PST, 0..10 variables Hyrax, degree 3..16383 / 2..14 variables for Ligero / Brakedown; random degree-bound and hiding settings, 1..3 polynomials, 1..3 points. Laws (exact byte counts): KZG family constant commitment and per-point proof, batch proof == 8 + points * proof, independent of the number of polynomials; PST13 / multilinear PST one group element per variable; IPA 2*log2(d+1) round elements; Hyrax 2^(n/2) row commitments and z entries per polynomial; Ligero / Brakedown commitment 64 bytes and proof <= 4 x min over power-of-two row counts of a byte-exact model of the proof (t paths, t columns, opening vectors) -- evaluated separately where t is below the codeword length and where it is capped by it. Combination proofs (Marlin, Sonic, IPA open_combinations over mixed hiding / non-hiding polynomials, equations listed in both orders, own and shared point labels): every per-point proof has the single-opening size, the blinding part present exactly when a hiding polynomial takes part at that point." + DIST,
+        "required_classes": ["constant-size", "one-element-per-variable", "two-elements-per-round", "square-root-size", "proof-within-4x-of-best-shape[t-below-codeword-length]", "combination-proof-size"],
         "technique": "runtime monitoring: size-law oracle over serialized artefacts along geometric size ladders",
         "level_text": "Every law is an exact byte count (or, for the code-based schemes, a bound against a byte-exact model minimised over matrix shapes) evaluated on real serialized commitments and proofs across three orders of magnitude of polynomial size.",
         "design_ref": "5 (C19)",
@@ -192,7 +192,7 @@ PROPS.update({
 PROPS.update({
     "C18": {
         "title": "Schedule and feature independence",
-        "rule": GEN + "Each case fixes a 32-byte seed from which ALL randomness of one complete execution derives (setup, trim, polynomials, commitment blinding, query set, prover and verifier RNG). The execution is repeated inside this process under rayon pools of 1, 2, 3, 8, 16 threads, 3 (quick) / 8 (thorough) more times at 16 threads and, in the thorough tier, under a 64-thread oversubscribed pool while 8 spinning threads load the machine; the driver additionally runs the same cases with the harness built WITHOUT the library's `parallel` feature. Compared: SHA-256 of the canonical serialization of universal parameters, committer / verifier key, every commitment and commitment state, batch proof, single proof, and the decisions of batch_check (true and false claim) and check. Oracle: all digests of all executions equal; cross-build digests equal key by key. A case is one seed; non-trivial = at least 8 executions compared." + DIST,
+        "rule": GEN + "Each case fixes a 32-byte seed from which ALL randomness of one complete execution derives (setup, trim, polynomials, commitment blinding, query set, prover and verifier RNG). The execution is repeated inside this process under rayon pools of 1, 2, 3, 6, 8, 16 (thorough: also 5, 7, 12) threads, 3 (quick) / 8 (thorough) more times at 16 threads and, in the thorough tier, under a 64-thread oversubscribed pool while 8 spinning threads load the machine; the driver additionally runs the same cases with the harness built WITHOUT the library's `parallel` feature. Compared: SHA-256 of the canonical serialization of universal parameters, committer / verifier key, every commitment and commitment state, batch proof, single proof, and the decisions of batch_check (true and false claim) and check. Oracle: all digests of all executions equal; cross-build digests equal key by key. Additional `<scheme>/large` cases run the same pipeline on polynomials with 1024..2100 (thorough ..4200) coefficients (boundary sizes 1023, 1024, 1025, 2047, 2048 over-represented), 10 / 12 variables, PST13 with 4 variables of degree 11, under pools of 1, 2, 3, 5, 7, 16 threads, because size thresholds of parallel code paths lie far above the small scenarios. A case is one seed; non-trivial = at least 7 executions compared in the parallel build." + DIST,
         "required_classes": ["same-digests-across-thread-counts"],
         "technique": "runtime monitoring: differential determinism monitor across rayon pool sizes, repetitions, load, and the non-parallel build",
         "level_text": "Schedule independence is decided by observing many executions of identical seeded workloads under different worker counts and builds and comparing digests of everything the library returns; this is what a race detector cannot say for a data-race-free (forbid(unsafe)) crate whose possible nondeterminism lies in reduction order or hidden thread-local RNGs.",
